@@ -336,6 +336,23 @@ func codecArgs(a []string) (reflect.Type, []string) {
 }
 
 // encodeSequence writes n records of one type through a single Encoder
+// failingWriter: mode 0 fails at once, mode 1 accepts half of the first write and then
+// fails, mode 2 accepts the first write and fails from the second on
+type failingWriter struct{ mode, calls int }
+
+func (w *failingWriter) Write(p []byte) (int, error) {
+	w.calls++
+	switch {
+	case w.mode == 0:
+		return 0, io.ErrClosedPipe
+	case w.mode == 1:
+		return len(p) / 2, io.ErrShortWrite
+	case w.calls == 1:
+		return len(p), nil
+	}
+	return 0, io.ErrClosedPipe
+}
+
 func encodeSequence(a []string) (string, error) { return encodeSequenceGrouped(a, 0) }
 
 // encodeSequenceGrouped writes the records through one Encoder. grouping 0: one Encode call
@@ -572,6 +589,23 @@ var codecImpl = map[string]core.Adapter{
 		}
 		if len(ps) != want {
 			return fmt.Sprintf("FAIL %d non-empty paragraphs written, %d read back from %q", want, len(ps), text)
+		}
+		// a write that failed somewhere else (a full disk, a closed connection) leaves nothing
+		// behind: the same records encoded afterwards give the same bytes
+		tr = &tokReader{ts: rest[1:]}
+		for i := 0; i < n && i < 2; i++ {
+			v := reflect.New(t).Elem()
+			readGoRecord(v, tr)
+			for mode := 0; mode < 3; mode++ {
+				control.Marshal(&failingWriter{mode: mode}, v.Addr().Interface())
+				if enc, err := control.NewEncoder(&failingWriter{mode: mode}); err == nil {
+					enc.Encode(v.Addr().Interface())
+					enc.Encode(v.Addr().Interface())
+				}
+			}
+		}
+		if again, err := encodeSequence(a); err != nil || again != text {
+			return fmt.Sprintf("FAIL after writes to a failing writer the same records encode as %q (%v), before: %q", again, err, text)
 		}
 		return "ok"
 	},
